@@ -1,5 +1,10 @@
 package flight13
 
+// GENERATED from harness/C01/handshake13.go: every flight is produced through GetGenerator, flight 5 included, and
+// every handshake message after ServerHello (EncryptedExtensions, CertificateRequest, Certificate - the empty one of a
+// client without credentials included -, CertificateVerify, Finished) is handed to the connection marked for
+// protection in the handshake epoch (C07: nothing after ServerHello leaves in clear).
+
 //symgo:pkg github.com/pion/dtls/v3/internal/flight/flight13
 //symgo:param H3VARY quick=1 thorough=2
 //symgo:param H3SRTP quick=2 thorough=3
@@ -31,6 +36,7 @@ import (
 	"github.com/pion/dtls/v3/pkg/crypto/signature"
 	"github.com/pion/dtls/v3/pkg/crypto/signaturehash"
 	"github.com/pion/dtls/v3/pkg/protocol"
+	"github.com/pion/dtls/v3/pkg/protocol/alert"
 	"github.com/pion/dtls/v3/pkg/protocol/extension"
 	"github.com/pion/dtls/v3/pkg/protocol/handshake"
 )
@@ -133,6 +139,25 @@ func zzH3NewPeer(isClient bool, cfg *dtlsconfig.HandshakeConfig) *zzH3Peer {
 		},
 	})
 	return p
+}
+
+func zzH3Gen(f Flight, p *zzH3Peer) ([]*dtlsflight.Packet, *alert.Alert, error) {
+	gen, _, ok := GetGenerator(f)
+	zzsymAssert(ok, "p13/generator_exists")
+	pkts, a, err := gen(p.conn, p.ctx.state, p.ctx.cache, p.ctx.cfg)
+	for _, pkt := range pkts {
+		h, ok := pkt.Record.Content.(*handshake.Handshake)
+		zzsymAssert(ok, "p13/only_handshake_messages")
+		switch h.Message.(type) {
+		case *handshake.MessageClientHello, *handshake.MessageServerHello:
+			zzsymAssert(!pkt.ShouldEncrypt && pkt.Record.Header.Epoch == 0, "p13/hello_in_epoch_0")
+		default:
+			zzsymAssert(pkt.ShouldEncrypt, "p13/message_after_server_hello_marked_for_protection")
+			zzsymAssert(pkt.Record.Header.Epoch == EpochHandshake, "p13/message_after_server_hello_in_handshake_epoch")
+			zzsymCover("protected_message13")
+		}
+	}
+	return pkts, a, err
 }
 
 // zzH3Send: see the transport stub above.
@@ -267,8 +292,8 @@ func zzH3Dim(name string, dim, n, dflt int) int {
 // decision, the same SRTP profile (from both lists), the same (empty) ALPN result, and the Certificate message
 // handed to the client's verification hook carries byte-for-byte the chain the server's callback returned.
 //
-//symgo:entry covers=agreed13,server_rejects_hello13,hrr,no_hrr,cid_on,cid_off,srtp_on,srtp_off,client_cert_requested
-func zzHelloAgreement13() {
+//symgo:entry covers=protected_message13,flight5_generated,flight5_empty_certificate,agreed13,server_rejects_hello13,hrr,no_hrr,cid_on,cid_off,srtp_on,srtp_off,client_cert_requested
+func zzFlights13MarkedForProtection() {
 	zzH3DHLog = nil
 	if zzsymParam("H3VARY") <= 1 {
 		zzH3Focus = zzsymChoice("focus_dimension", zzH3DimCount)
@@ -334,9 +359,9 @@ func zzHelloAgreement13() {
 	c, s := zzH3NewPeer(true, ccfg), zzH3NewPeer(false, scfg)
 	bg := context.Background()
 
-	_, a, err := flight0Generate(s.conn, s.ctx)
+	_, a, err := zzH3Gen(Flight0, s)
 	zzsymAssert(zzsymAnd(a == nil, err == nil), "h3/flight0_generate_ok")
-	pkts, a, err := flight1Generate(c.conn, c.ctx)
+	pkts, a, err := zzH3Gen(Flight1, c)
 	zzsymAssert(zzsymAnd(a == nil, err == nil), "h3/flight1_generate_ok")
 	zzH3Send(c, s, pkts)
 	next, a, err := flight0Parse(bg, s.conn, s.ctx)
@@ -345,7 +370,7 @@ func zzHelloAgreement13() {
 		return
 	}
 	if next == Flight2 {
-		pkts, a, err = flight2Generate(s.conn, s.ctx)
+		pkts, a, err = zzH3Gen(Flight2, s)
 		if a != nil || err != nil {
 			zzsymCover("server_cannot_retry")
 			return
@@ -357,7 +382,7 @@ func zzHelloAgreement13() {
 			return
 		}
 		zzsymAssert(cnext == Flight3, "h3/client_answers_retry")
-		pkts, a, err = flight3Generate(c.conn, c.ctx)
+		pkts, a, err = zzH3Gen(Flight3, c)
 		if a != nil || err != nil {
 			zzsymCover("client_cannot_retry")
 			return
@@ -373,7 +398,7 @@ func zzHelloAgreement13() {
 		zzsymCover("no_hrr")
 	}
 	zzsymAssert(next == Flight4, "h3/server_goes_to_flight4")
-	pkts, a, err = flight4Generate(s.conn, s.ctx)
+	pkts, a, err = zzH3Gen(Flight4, s)
 	if a != nil || err != nil {
 		zzsymCover("server_aborts_flight4_13")
 		return
@@ -390,6 +415,14 @@ func zzHelloAgreement13() {
 		return
 	}
 	zzsymAssert(cnext == Flight5, "h3/client_goes_to_flight5")
+	if pk5, a5, err5 := zzH3Gen(Flight5, c); a5 == nil && err5 == nil {
+		zzsymAssert(len(pk5) >= 1, "p13/flight5_has_finished")
+		if wantClientCert {
+			zzsymAssert(len(pk5) >= 2, "p13/flight5_answers_certificate_request")
+			zzsymCover("flight5_empty_certificate")
+		}
+		zzsymCover("flight5_generated")
+	}
 
 	// ---- agreement ----
 	cs, ss := c.ctx.state, s.ctx.state
